@@ -75,17 +75,12 @@ func VH_C03_subscribe(bodyLen, nameLen int) {
 	switch sub.TopicIDType {
 	case 0:
 		if !vHasWild([]byte(filter)) {
-			// the registration made by this SUBSCRIBE: an ID that was not registered before
+			// the registration made (or found) by this SUBSCRIBE: some ID now denotes the name
 			found := false
 			vMapOrderFixed(true)
 			h.registeredTopics.Range(func(k, v interface{}) bool {
-				id := k.(uint16)
-				fresh := true
-				for _, e := range w.re {
-					fresh = vAnd(fresh, e.id != id)
-				}
-				if vAnd(fresh, v.(string) == filter) {
-					assigned, found = id, true
+				if v.(string) == filter {
+					found = true
 					return false
 				}
 				return true
@@ -119,7 +114,14 @@ func VH_C03_subscribe(bodyLen, nameLen int) {
 	if rc <= 2 {
 		vReach("C03.suback_granted")
 		vAssert((r.Flags>>5)&3 == rc, "C03.suback_granted_qos")
-		vAssert(r.TopicID == assigned, "C03.suback_topicid")
+		if sub.TopicIDType == 0 && !vHasWild([]byte(filter)) {
+			// the ID in the SUBACK denotes the subscribed name in this session
+			name, ok := h.registeredTopics.Load(r.TopicID)
+			nm, _ := name.(string)
+			vAssert(vAnd(ok, nm == filter), "C03.suback_topicid")
+		} else {
+			vAssert(r.TopicID == assigned, "C03.suback_topicid")
+		}
 	}
 }
 
